@@ -4,11 +4,15 @@ From Coq Require Import ZArith List Bool Lia.
 From FV Require Import Core.Syntax Core.Typing Core.Sem Proofs.TypingP.
 Import ListNotations.
 
+Section WithStructs.
+Variable structs : structs_t.
+
 Definition vtype (v : value) (t : ty) : Prop :=
   match v, t with
   | VInt a _, TInt b => a = b
   | VBool _, TBool => True
   | VUnit, TVoid => True
+  | VStruct sid fs, TStruct sid' => sid = sid' /\ exists fts, nth_error structs sid = Some fts /\ length fs = length fts
   | _, _ => False
   end.
 
@@ -81,6 +85,13 @@ Lemma fine_bind {A B} (P : A -> Prop) (Q : B -> Prop) (r : res A) (k : A -> list
   fine P r -> (forall a out, P a -> fine Q (k a out)) -> fine Q (bind r k).
 Proof. destruct r; cbn; auto; contradiction. Qed.
 
+Lemma set_nth_some : forall k z l, (k < length l)%nat -> exists l', set_nth k z l = Some l' /\ length l' = length l.
+Proof.
+  induction k as [|k IH]; intros z [|x r] Hk; cbn in *; try lia.
+  - eexists; split; [reflexivity|reflexivity].
+  - destruct (IH z r) as [r' [Hs Hl]]; [lia|]. rewrite Hs. eexists; split; [reflexivity|]. cbn. congruence.
+Qed.
+
 Section Safety.
 Variable sigs : list sig.
 Variable callf : nat -> list value -> list line -> res value.
@@ -88,10 +99,10 @@ Variable callf : nat -> list value -> list line -> res value.
 Hypothesis callf_ok : forall f pts rt args out, nth_error sigs f = Some (pts, rt) ->
   Forall2 vtype args pts -> fine (fun v => vtype v rt) (callf f args out).
 
-Theorem eval_safe G : forall e t en out, check_expr sigs G e = TOk t -> env_ok G en ->
-  fine (fun v => vtype v t) (eval callf e en out).
+Theorem eval_safe G : forall e t en out, check_expr structs sigs G e = TOk t -> env_ok G en ->
+  fine (fun v => vtype v t) (eval structs callf e en out).
 Proof.
-  fix IH 1. intros e t en out H He. destruct e as [t0 z|b|x|o a b|o a|a t0|f es].
+  fix IH 1. intros e t en out H He. destruct e as [t0 z|b|x|o a b|o a|a t0|f es|sid es|a k].
   - cbn in H. destruct (in_range t0 z); inversion H; cbn; reflexivity.
   - inversion H; cbn; exact I.
   - cbn in H. destruct (tlookup x G) as [t1|] eqn:E; inversion H; subst.
@@ -117,7 +128,7 @@ Proof.
                   | _, _ => Wrong
                   end)) ->
               fine (fun v => vtype v t')
-                (bind (eval callf a en out) (fun va out1 => bind (eval callf b en out1) (fun vb out2 =>
+                (bind (eval structs callf a en out) (fun va out1 => bind (eval structs callf b en out1) (fun vb out2 =>
                   match va, vb with
                   | VInt t1 x, VInt t2 y =>
                       if ity_eqb t1 t2 then
@@ -137,23 +148,23 @@ Proof.
       eapply fine_bind; [apply IHb; assumption|]. intros vb out2 Hvb. apply Hk; assumption. }
     destruct o.
     1-5: (cbn; apply Hgen; intros va vb Hva Hvb out2;
-          destruct ta as [x| |], tb as [y| |]; try discriminate;
+          destruct ta as [x| | |sx], tb as [y| | |sy]; try discriminate;
           destruct (ity_eqb x y) eqn:Ex; [|discriminate]; apply ity_eqb_eq in Ex; subst y; inversion H; subst;
           destruct va, vb; cbn in Hva, Hvb; try contradiction; subst; rewrite ity_eqb_refl; cbn;
           repeat match goal with |- context [if ?c then _ else _] => destruct c end; cbn; auto).
     1-2: (cbn; apply Hgen; intros va vb Hva Hvb out2;
-          destruct ta as [x| |], tb as [y| |]; try discriminate;
+          destruct ta as [x| | |sx], tb as [y| | |sy]; try discriminate;
           [destruct (ity_eqb x y) eqn:Ex; [|discriminate]; apply ity_eqb_eq in Ex; subst y|]; inversion H; subst;
           destruct va, vb; cbn in Hva, Hvb; try contradiction; subst; rewrite ?ity_eqb_refl; cbn; auto).
     1-4: (cbn; apply Hgen; intros va vb Hva Hvb out2;
-          destruct ta as [x| |], tb as [y| |]; try discriminate;
+          destruct ta as [x| | |sx], tb as [y| | |sy]; try discriminate;
           destruct (ity_eqb x y) eqn:Ex; [|discriminate]; apply ity_eqb_eq in Ex; subst y; inversion H; subst;
           destruct va, vb; cbn in Hva, Hvb; try contradiction; subst; rewrite ity_eqb_refl; cbn; auto).
     + (* And *) cbn. destruct ta, tb; try discriminate. inversion H; subst.
-      eapply fine_bind; [apply IHa; assumption|]. intros va out1 Hva. destruct va as [| [|] |]; cbn in Hva; try contradiction; cbn; auto.
+      eapply fine_bind; [apply IHa; assumption|]. intros va out1 Hva. destruct va as [| [|] | |]; cbn in Hva; try contradiction; cbn; auto.
       eapply fine_bind; [apply IHb; assumption|]. intros vb out2 Hvb. destruct vb; cbn in Hvb; try contradiction; cbn; auto.
     + (* Or *) cbn. destruct ta, tb; try discriminate. inversion H; subst.
-      eapply fine_bind; [apply IHa; assumption|]. intros va out1 Hva. destruct va as [| [|] |]; cbn in Hva; try contradiction; cbn; auto.
+      eapply fine_bind; [apply IHa; assumption|]. intros va out1 Hva. destruct va as [| [|] | |]; cbn in Hva; try contradiction; cbn; auto.
       eapply fine_bind; [apply IHb; assumption|]. intros vb out2 Hvb. destruct vb; cbn in Hvb; try contradiction; cbn; auto.
   - destruct o; cbn in H; apply tbind_ok in H as [ta [Ha H]]; destruct ta; try discriminate; inversion H; subst; cbn;
       (eapply fine_bind; [exact (IH a _ en out Ha He)|]); intros va out1 Hva; destruct va; cbn in Hva; try contradiction; cbn; auto.
@@ -162,13 +173,13 @@ Proof.
   - apply rule_call in H as [pts [Hn [Hlen HF]]]. cbn.
     (* generalise the accumulator *)
     assert (Hgen : forall es pts2 acc pts1 out,
-               Forall2 (fun e pt => check_expr sigs G e = TOk pt) es pts2 ->
+               Forall2 (fun e pt => check_expr structs sigs G e = TOk pt) es pts2 ->
                Forall2 vtype (rev acc) pts1 -> pts = pts1 ++ pts2 ->
                fine (fun v => vtype v t)
                  ((fix evals (es : list expr) (acc : list value) (out : list line) {struct es} : res value :=
                      match es with
                      | [] => callf f (rev acc) out
-                     | e1 :: r => bind (eval callf e1 en out) (fun v out => evals r (v :: acc) out)
+                     | e1 :: r => bind (eval structs callf e1 en out) (fun v out => evals r (v :: acc) out)
                      end) es acc out)).
     { clear HF Hlen. induction es0 as [|e1 r IHes]; intros pts2 acc pts1 out0 HF Hacc Hp.
       - inversion HF; subst. rewrite app_nil_r in Hn. eapply callf_ok; eauto.
@@ -177,6 +188,37 @@ Proof.
         apply (IHes pr (v :: acc) (pts1 ++ [pt])); [assumption| |rewrite <- app_assoc; reflexivity].
         cbn. apply Forall2_app; [assumption|constructor; [assumption|constructor]]. }
     apply (Hgen es pts [] []); [assumption|constructor|reflexivity].
+  - (* struct literal *)
+    apply slit_inv in H as [fts [Hn [-> HF]]]. cbn.
+    assert (Hgen : forall es fts2 acc fts1 out,
+               Forall2 (fun e ft => check_expr structs sigs G e = TOk (TInt ft)) es fts2 ->
+               length acc = length fts1 -> fts = fts1 ++ fts2 ->
+               fine (fun v => vtype v (TStruct sid))
+                 ((fix flds (es : list expr) (acc : list Z) (out : list line) {struct es} : res value :=
+                     match es with
+                     | [] => Ok (VStruct sid (rev acc)) out
+                     | e1 :: r => bind (eval structs callf e1 en out) (fun v out =>
+                                    match v with VInt _ z => flds r (z :: acc) out | _ => Wrong end)
+                     end) es acc out)).
+    { clear HF. induction es0 as [|e1 r IHes]; intros fts2 acc fts1 out0 HF Hacc Hp.
+      - inversion HF; subst. cbn. split; [reflexivity|]. exists (fts1 ++ []). split; [exact Hn|].
+        rewrite rev_length, app_nil_r. exact Hacc.
+      - inversion HF as [|? ft ? fr He1 Hr]; subst.
+        eapply fine_bind; [apply (IH e1 (TInt ft) en); assumption|]. intros v out1 Hv.
+        destruct v; cbn in Hv; try contradiction.
+        apply (IHes fr (v :: acc) (fts1 ++ [ft])); [assumption| |rewrite <- app_assoc; reflexivity].
+        cbn. rewrite app_length. cbn. lia. }
+    apply (Hgen es fts [] []); [assumption|reflexivity|reflexivity].
+  - (* field *)
+    cbn in H. apply tbind_ok in H as [ta [Ha H]]. destruct ta as [| | |sid]; try discriminate.
+    destruct (nth_error structs sid) as [fts|] eqn:En; [|discriminate].
+    destruct (nth_error fts k) as [t0|] eqn:Ek; [|discriminate]. inversion H; subst. cbn.
+    eapply fine_bind; [exact (IH a _ en out Ha He)|]. intros va out1 Hva.
+    destruct va as [| | |sid' fs]; cbn in Hva; try contradiction.
+    destruct Hva as [-> [fts' [En' Hlen]]]. rewrite En in En'. inversion En'; subst fts'.
+    rewrite En, Ek.
+    destruct (nth_error fs k) as [z|] eqn:Ez; [cbn; reflexivity|].
+    exfalso. apply nth_error_None in Ez. assert (k < length fts)%nat by (apply nth_error_Some; congruence). lia.
 Qed.
 
 Definition flow_ok (ret : ty) (inl : bool) (fl : flow) : Prop :=
@@ -197,7 +239,7 @@ Proof. destruct 1; cbn; [constructor|assumption]. Qed.
 Lemma tdeclare_tl x t G : G <> [] -> tl (tdeclare x t G) = tl G /\ tdeclare x t G <> [].
 Proof. destruct G; [contradiction|]. cbn. split; [reflexivity|discriminate]. Qed.
 
-Lemma check_stmt_tl : forall s ret inl G G', check_stmt sigs ret inl G s = TOk G' -> G <> [] -> tl G' = tl G /\ G' <> [].
+Lemma check_stmt_tl : forall s ret inl G G', check_stmt structs sigs ret inl G s = TOk G' -> G <> [] -> tl G' = tl G /\ G' <> [].
 Proof.
   induction s; intros ret inl G G' H Hne; cbn in H.
   - inversion H; subst; auto.
@@ -207,6 +249,9 @@ Proof.
     destruct t; try discriminate; destruct (ty_eqb te _); try discriminate; inversion H; subst; apply tdeclare_tl; assumption.
   - destruct (tlookup x G); [|discriminate]. apply tbind_ok in H as [te [_ H]].
     destruct (ty_eqb te t); inversion H; subst; auto.
+  - destruct (tlookup x G) as [[| | |sid]|]; try discriminate.
+    destruct (nth_error structs sid) as [fts|]; [|discriminate]. destruct (nth_error fts k) as [t0|]; [|discriminate].
+    apply tbind_ok in H as [te [_ H]]. destruct (ty_eqb te (TInt t0)); inversion H; subst; auto.
   - apply tbind_ok in H as [tc [_ H]]. destruct tc; try discriminate.
     apply tbind_ok in H as [Ga [_ H]]. apply tbind_ok in H as [Gb [_ H]]. inversion H; subst; auto.
   - apply tbind_ok in H as [tc [_ H]]. destruct tc; try discriminate.
@@ -234,8 +279,8 @@ Proof.
 Qed.
 
 Theorem exec_safe k : forall s ret inl G G' en out,
-  check_stmt sigs ret inl G s = TOk G' -> env_ok G en -> G <> [] ->
-  fine (post ret inl G G') (exec callf k s en out).
+  check_stmt structs sigs ret inl G s = TOk G' -> env_ok G en -> G <> [] ->
+  fine (post ret inl G G') (exec structs callf k s en out).
 Proof.
   induction s; intros ret inl G G' en out H He Hne; cbn in H.
   - (* skip *) inversion H; subst. cbn. split; [exact I|]. exists G'. auto.
@@ -244,7 +289,7 @@ Proof.
     destruct (check_stmt_tl _ _ _ _ _ H1 Hne) as [E1 N1].
     destruct fl.
     + specialize (Hnorm eq_refl). subst Gx.
-      pose proof (IHs2 ret inl G1 G' en1 out1 H2 Hex N1) as R. destruct (exec callf k s2 en1 out1); cbn in *; auto.
+      pose proof (IHs2 ret inl G1 G' en1 out1 H2 Hex N1) as R. destruct (exec structs callf k s2 en1 out1); cbn in *; auto.
       destruct R as [Rf [Gy [Rey [Rt [Rn Rnorm]]]]]. split; [assumption|]. exists Gy. repeat split; auto. congruence.
     + cbn. split; [assumption|]. exists Gx. repeat split; auto; try discriminate.
     + cbn. split; [assumption|]. exists Gx. repeat split; auto; try discriminate.
@@ -260,9 +305,27 @@ Proof.
     destruct (ty_eqb te t) eqn:E; [|discriminate]. apply ty_eqb_eq in E. subst te. inversion H; subst.
     destruct (update_ok _ _ _ _ _ He El Hv) as [en' [Hu He']]. rewrite Hu. cbn.
     split; [exact I|]. exists G'. auto.
+  - (* field assignment *)
+    destruct (tlookup x G) as [[| | |sid]|] eqn:El; try discriminate.
+    destruct (nth_error structs sid) as [fts|] eqn:En; [|discriminate].
+    match type of H with context [nth_error fts ?kk] => rename kk into kf end.
+    destruct (nth_error fts kf) as [t0|] eqn:Ek; [|discriminate].
+    apply tbind_ok in H as [te [Hte H]]. destruct (ty_eqb te (TInt t0)) eqn:E; [|discriminate].
+    apply ty_eqb_eq in E. subst te. inversion H; subst. cbn.
+    eapply fine_bind; [eapply eval_safe; eassumption|]. intros v out1 Hv.
+    destruct v as [tv z| | |]; cbn in Hv; try contradiction.
+    destruct (lookup_ok _ _ _ _ He El) as [vs [Hl Hvs]]. rewrite Hl.
+    destruct vs as [| | |sid' fs]; cbn in Hvs; try contradiction.
+    destruct Hvs as [-> [fts' [En' Hlen]]]. rewrite En in En'. inversion En'; subst fts'.
+    assert (Hk : (kf < length fs)%nat) by (rewrite Hlen; apply nth_error_Some; congruence).
+    destruct (set_nth_some kf z fs Hk) as [fs' [Hs Hl']]. rewrite Hs.
+    assert (Hnew : vtype (VStruct sid fs') (TStruct sid)).
+    { cbn. split; [reflexivity|]. exists fts. split; [exact En|]. congruence. }
+    destruct (update_ok _ _ _ _ _ He El Hnew) as [en' [Hu He']]. rewrite Hu. cbn.
+    split; [exact I|]. exists G'. auto.
   - (* if *) apply tbind_ok in H as [tc [Hc H]]. destruct tc; try discriminate.
     apply tbind_ok in H as [Ga [Ha H]]. apply tbind_ok in H as [Gb [Hb H]]. inversion H; subst. cbn.
-    eapply fine_bind; [eapply eval_safe; eassumption|]. intros vc out1 Hvc. destruct vc as [| [|] |]; cbn in Hvc; try contradiction.
+    eapply fine_bind; [eapply eval_safe; eassumption|]. intros vc out1 Hvc. destruct vc as [| [|] | |]; cbn in Hvc; try contradiction.
     + eapply fine_bind; [eapply (IHs1 ret inl ([] :: G') Ga ([] :: en)); [eassumption|constructor; [constructor|assumption]|discriminate]|].
       intros r out2 Hp. destruct (post_pop _ _ _ _ _ Hp Hne) as [Hen Hfl]. cbn. split; [exact Hfl|]. exists G'. auto.
     + eapply fine_bind; [eapply (IHs2 ret inl ([] :: G') Gb ([] :: en)); [eassumption|constructor; [constructor|assumption]|discriminate]|].
@@ -272,7 +335,7 @@ Proof.
     match goal with |- fine ?P (?L k en out) =>
       assert (Hl : forall n e o, env_ok G' e -> fine P (L n e o)); [|apply Hl; assumption] end.
     clear en out He. induction n as [|n IHn]; intros en out He; [exact I|].
-    eapply fine_bind; [eapply eval_safe; eassumption|]. intros vc out1 Hvc. destruct vc as [| [|] |]; cbn in Hvc; try contradiction.
+    eapply fine_bind; [eapply eval_safe; eassumption|]. intros vc out1 Hvc. destruct vc as [| [|] | |]; cbn in Hvc; try contradiction.
     + eapply fine_bind; [eapply (IHs ret true ([] :: G') Ga ([] :: en)); [eassumption|constructor; [constructor|assumption]|discriminate]|].
       intros r out2 Hp. destruct (post_pop _ _ _ _ _ Hp Hne) as [Hen Hfl]. destruct r as [en2 fl]. cbn in *.
       destruct fl; cbn.
@@ -287,7 +350,7 @@ Proof.
     apply tbind_ok in H as [Ga [Ha H]]. inversion H; subst. cbn.
     eapply fine_bind; [eapply eval_safe; eassumption|]. intros vlo out1 Hvlo.
     eapply fine_bind; [eapply eval_safe; eassumption|]. intros vhi out2 Hvhi.
-    destruct vlo as [t1 l| |], vhi as [t2 h| |]; cbn in Hvlo, Hvhi; try contradiction. subst t1 t2.
+    destruct vlo as [t1 l| | |], vhi as [t2 h| | |]; cbn in Hvlo, Hvhi; try contradiction. subst t1 t2.
     match goal with |- fine ?P (?L k l en out2) =>
       assert (Hl : forall n i e o, env_ok G' e -> fine P (L n i e o)); [|apply Hl; assumption] end.
     clear en out He out1 out2. induction n as [|n IHn]; intros i en out He; [exact I|].
@@ -314,13 +377,13 @@ Proof.
     assert (G' = G) as ->.
     { revert H. clear. induction es as [|e1 r IHes]; intros H; [inversion H; reflexivity|].
       apply tbind_ok in H as [te [_ H]]. destruct (printable te); [auto|discriminate]. }
-    pose proof (prints_ok sigs G es H) as Hall.
-    assert (Hgen : forall es acc out, (forall a, In a es -> exists te, check_expr sigs G a = TOk te /\ printable te = true) ->
+    pose proof (prints_ok structs sigs G es H) as Hall.
+    assert (Hgen : forall es acc out, (forall a, In a es -> exists te, check_expr structs sigs G a = TOk te /\ printable te = true) ->
               fine (post ret inl G G)
                ((fix prints (es : list expr) (acc : line) (out : list line) {struct es} : res (env * flow) :=
                    match es with
                    | [] => Ok (en, FNormal) (out ++ [rev acc])
-                   | e1 :: r => bind (eval callf e1 en out) (fun v out =>
+                   | e1 :: r => bind (eval structs callf e1 en out) (fun v out =>
                                   match item_of v with Some it => prints r (it :: acc) out | None => Wrong end)
                    end) es acc out)).
     { clear H Hall. induction es0 as [|e1 r IHes]; intros acc out0 Hall.
@@ -346,7 +409,7 @@ Proof. destruct r; cbn; intros H; try discriminate. eauto. Qed.
 
 (* a body whose every path syntactically ends in `return` never falls off its end *)
 Lemma returns_not_normal k : forall s en out r out',
-  returns s = true -> exec callf k s en out = Ok r out' -> snd r <> FNormal.
+  returns s = true -> exec structs callf k s en out = Ok r out' -> snd r <> FNormal.
 Proof.
   induction s; intros en out r out' Hr H; cbn in Hr; try discriminate; cbn in H.
   - apply bind_ok_inv in H as [[en1 fl1] [o1 [H1 H2]]].
@@ -354,7 +417,7 @@ Proof.
     + pose proof (IHs1 _ _ _ _ Hr H1) as Hn. cbn in Hn. destruct fl1; [contradiction| | |]; inversion H2; subst; cbn; discriminate.
     + destruct fl1; [eapply IHs2; eassumption| | |]; inversion H2; subst; cbn; discriminate.
   - apply andb_prop in Hr as [Ha Hb].
-    apply bind_ok_inv in H as [vc [o1 [H1 H2]]]. destruct vc as [| [|] |]; try discriminate.
+    apply bind_ok_inv in H as [vc [o1 [H1 H2]]]. destruct vc as [| [|] | |]; try discriminate.
     + apply bind_ok_inv in H2 as [r1 [o2 [H3 H4]]]. inversion H4; subst. cbn. eapply IHs1; eassumption.
     + apply bind_ok_inv in H2 as [r1 [o2 [H3 H4]]]. inversion H4; subst. cbn. eapply IHs2; eassumption.
   - destruct e as [e|].
@@ -376,11 +439,11 @@ Qed.
 Section Prog.
 Variable p : prog.
 Let sigs := map sig_of p.
-Hypothesis fns_ok : forall f fd, nth_error p f = Some fd -> check_fn sigs fd = TOk tt.
+Hypothesis fns_ok : forall f fd, nth_error p f = Some fd -> check_fn structs sigs fd = TOk tt.
 
 Theorem call_safe : forall fuel f pts rt args out,
   nth_error sigs f = Some (pts, rt) -> Forall2 vtype args pts ->
-  fine (fun v => vtype v rt) (call p fuel f args out).
+  fine (fun v => vtype v rt) (call structs p fuel f args out).
 Proof.
   induction fuel as [|fuel IH]; intros f pts rt args out Hs Ha; [exact I|].
   cbn. unfold sigs in Hs. rewrite nth_error_map in Hs. destruct (nth_error p f) as [fd|] eqn:Ef; [|discriminate].
@@ -389,22 +452,20 @@ Proof.
   pose proof (fns_ok _ _ Ef) as Hf. unfold check_fn in Hf.
   destruct (negb (distinct_params (fparams fd))); [discriminate|].
   apply tbind_ok in Hf as [G' [Hst Hret]].
-  assert (Hex : fine (post (fret fd) false [fparams fd] G') (exec (call p fuel) fuel (fbody fd) [sc] out)).
-  { eapply (exec_safe sigs (call p fuel)); [|eassumption| |discriminate].
+  assert (Hex : fine (post (fret fd) false [fparams fd] G') (exec structs (call structs p fuel) fuel (fbody fd) [sc] out)).
+  { eapply (exec_safe sigs (call structs p fuel)); [|eassumption| |discriminate].
     - intros g pts' rt' args' out' Hn Hargs. eapply IH; eassumption.
     - constructor; [assumption|constructor]. }
-  destruct (exec (call p fuel) fuel (fbody fd) [sc] out) as [[en' fl] out'| | |] eqn:Eex; cbn in *; auto.
+  destruct (exec structs (call structs p fuel) fuel (fbody fd) [sc] out) as [[en' fl] out'| | |] eqn:Eex; cbn in *; auto.
   destruct Hex as [Hfl _]. cbn in Hfl. destruct fl; cbn; try discriminate; auto.
-  destruct (fret fd) eqn:Er; cbn; auto.
-  - destruct (returns (fbody fd)) eqn:Rb; [|discriminate].
-    exfalso. eapply (returns_not_normal (call p fuel) fuel); [exact Rb|exact Eex|reflexivity].
-  - destruct (returns (fbody fd)) eqn:Rb; [|discriminate].
-    exfalso. eapply (returns_not_normal (call p fuel) fuel); [exact Rb|exact Eex|reflexivity].
+  destruct (fret fd) eqn:Er; cbn; auto;
+    (destruct (returns (fbody fd)) eqn:Rb; [|discriminate];
+     exfalso; eapply (returns_not_normal (call structs p fuel) fuel); [exact Rb|exact Eex|reflexivity]).
 Qed.
 End Prog.
 
-Lemma check_fns_nth sigs : forall fs, check_fns sigs fs = TOk tt ->
-  forall f fd, nth_error fs f = Some fd -> check_fn sigs fd = TOk tt.
+Lemma check_fns_nth sigs : forall fs, check_fns structs sigs fs = TOk tt ->
+  forall f fd, nth_error fs f = Some fd -> check_fn structs sigs fd = TOk tt.
 Proof.
   intros fs H f fd Hn. eapply check_fns_all; [exact H|]. eapply nth_error_In; eassumption.
 Qed.
@@ -419,7 +480,7 @@ Proof.
 Qed.
 
 (* TYPE SAFETY: an accepted program never gets stuck, whatever the fuel *)
-Theorem type_safety p : check_prog p = TOk tt -> forall fuel, run p fuel <> Stuck.
+Theorem type_safety p : check_prog structs p = TOk tt -> forall fuel, run structs p fuel <> Stuck.
 Proof.
   unfold check_prog. destruct (rev p) as [|m r] eqn:Er; [discriminate|].
   destruct (fparams m) eqn:Ep; [|discriminate]. destruct (fret m) eqn:Ef; try discriminate.
@@ -428,5 +489,6 @@ Proof.
   assert (Hs : nth_error (map sig_of p) (length p - 1) = Some ([], TVoid)).
   { rewrite nth_error_map, Hm. cbn. unfold sig_of. rewrite Ep, Ef. reflexivity. }
   pose proof (call_safe p (check_fns_nth _ _ H) fuel (length p - 1) [] TVoid [] [] Hs (Forall2_nil _)) as Hc.
-  destruct (call p fuel (length p - 1) [] []); cbn in Hc; try discriminate; contradiction.
+  destruct (call structs p fuel (length p - 1) [] []); cbn in Hc; try discriminate; contradiction.
 Qed.
+End WithStructs.
